@@ -336,7 +336,7 @@ fn run_v(dir: &std::path::Path, c: &VCase) -> VRun {
     for b in &eps {
         let mut ok = false;
         let t0 = Instant::now();
-        let mut waits = [500u64, 1000, 2000, 4000, 8000].into_iter();
+        let mut waits = [500u64, 1000, 2000, 4000].into_iter();
         while t0.elapsed() < Duration::from_secs(40) {
             match pipe.get_t(&format!("{b}{}", pool_text(NEVER)), 500, false).0 {
                 200 => { ok = true; break; }
@@ -760,7 +760,7 @@ fn gen_render_query(rng: &mut Rng, pop: &QPop) -> String {
     let mut parts: Vec<String> = vec![];
     match rng.below(5) { 0 => parts.push("include=lessSpecifics".into()), 1 => parts.push("include=moreSpecifics".into()), 2 => parts.push("include=lessSpecifics,moreSpecifics".into()), _ => {} }
     if rng.chance(1, 5) { parts.push(format!("{}[peer_as]={}", if rng.chance(1, 2) { "select" } else { "discard" }, rng.pick(&[65001u32, 65002, 3]))); }
-    let ptrs = ["/ingress_id", "/prefix", "/status", "/ingress_info/remote_asn", "/ingress_info", "/attributes", "/attributes/0", "/attributes/1/asPath", "/attributes/3/multiExitDisc", "/attributes/4/communities", "/attributes/4/communities/0/parsed/value/tag", "", "/", "/nope", "ingress_id", "/ingress_id/x", "/attributes/01", "%2Fstatus", "/attributes/3", "/attributes/2/nextHop"];
+    let ptrs = ["/ingress_id", "/prefix", "/status", "/ingress_info/remote_asn", "/ingress_info", "/attributes", "/attributes/0", "/attributes/1/asPath", "/attributes/3/multiExitDisc", "/attributes/4/communities", "/attributes/4/communities/0/parsed/value/tag", "", "/", "/nope", "ingress_id", "/ingress_id/x", "/attributes/01", "/status,/ingress_id", "/attributes/3", "/attributes/2/nextHop"];
     let n = match rng.below(10) { 0 => 0, 1..=6 => 1, _ => 2 };
     for _ in 0..n {
         match rng.below(12) {
@@ -848,8 +848,13 @@ fn gen_v(rng: &mut Rng) -> VCase {
     VCase { k, vr, ann, qs, ups: vec![] }
 }
 
+/// consecutive pipelines that did not come up (a tree on which none does costs ~10 s per case: after two in a row the
+/// remaining live cases are reported as set-up failures without being run)
+static SETUP_FAILURES: AtomicUsize = AtomicUsize::new(0);
+
 fn record_v(dir: &std::path::Path, mut c: VCase, rec: &mut Recorder, kind: &str) -> Vec<String> {
-    let run = run_v(dir, &c);
+    let run = if SETUP_FAILURES.load(AO::SeqCst) >= 2 { VRun { obs: vec![], ups: vec![], detail: vec![], up_detail: vec![], setup: Some("not-run-after-two-failed-set-ups".into()) } } else { run_v(dir, &c) };
+    if run.setup.is_some() { SETUP_FAILURES.fetch_add(1, AO::SeqCst); } else { SETUP_FAILURES.store(0, AO::SeqCst); }
     c.ups = if run.ups.len() == c.qs.len() { run.ups.clone() } else { c.qs.iter().map(|_| "?".to_string()).collect() };
     let (oracle, nt) = oracle_v(&c, &run);
     rec.bump(&format!("V.{kind}"));
@@ -886,6 +891,9 @@ fn witnesses(dir: &std::path::Path, rt: &tokio::runtime::Runtime, rec: &mut Reco
         scope_repaired = orders.len() == 2 && orders[0] != orders[1];
     }
     rec.variant("sortscope", if scope_repaired { "repaired" } else { "as-written" });
+    // W3b: null against a number in both directions: `Less` twice as written, `Less` / `Greater` with the total comparator
+    let (n, one) = (Value::Null, Value::from(1u64));
+    rec.variant("cmp", if run_c(&n, &one) == "L" && run_c(&one, &n) == "G" { "total" } else { "as-written" });
 
     // W4: the per-ingress listing of an ingress whose routes the store's iterator does not all reach
     let lp = QPop::parse("u,4/24/668673,3,W,60;u,4/16/2612,1,W,31;u,4/16/2613,1,W,52;u,4/16/2613,2,A,73;u,4/24/668672,1,W,34;u,4/24/668672,2,A,95;u,4/24/668672,3,W,56;u,4/17/5225,1,A,17;u,4/17/5225,2,A,58", "").unwrap();
@@ -932,14 +940,18 @@ fn main() {
                  "V|1.0|0.0,0.3|0.2.l=?;p.0.n=?;0.5.n=?;x.0.n=?", "V|3.1|1.1|v.4.b=?;2.5.b=?;v.1.m=?;p.1.n=?;2.5.n=?;x.0.n=?"] {
         record_v(&dir, VCase::parse(line).unwrap(), &mut rec, "fixed");
     }
+    // a section beyond the insertion-sort bound of `sort_by` whose sort key holds mixed types (`ingress_info` is null for an
+    // unregistered ingress, an object otherwise): harmless while the sort sees one record at a time
+    let big = QPop { ingress: (1..=30).filter(|m| m % 2 == 0).map(|m| (m, Some(65000 + m))).collect(), wd: vec![], recs: (1..=30).map(|m| QRec { mc: false, pfx: QPfx { fam: 4, len: 8, bits: 10 }, mui: m, active: true, aid: 100 - m, path: vec![m], comms: vec![] }).collect() };
+    if let Ok(f) = big.build() {
+        for q in ["sort=/ingress_info", "sort=", "sort=/ingress_info/remote_asn,/ingress_id", "sort=/attributes/3/multiExitDisc"] {
+            if let Some((line, imp, oracle, nt)) = run_r(&rt, &f, &RCase { pfx: QPfx { fam: 4, len: 8, bits: 10 }, query: q.into(), pop: big.show_full() }, &mut rec) { rec.bump("R.fixed-big-section"); rec.case(line, imp, oracle, nt); }
+        }
+    }
     let n_v = if args.thorough { 160 } else { 20 };
-    let mut setup_failures = 0;
     for _ in 0..n_v {
         let c = gen_v(&mut rng);
-        // a tree whose pipelines do not come up costs 40 s per case: two in a row end the stream (they are reported)
-        if setup_failures >= 2 { rec.bump("V.skipped-after-setup-failures"); continue; }
-        let obs = record_v(&dir, c, &mut rec, "generated");
-        if obs.is_empty() { setup_failures += 1 } else { setup_failures = 0 }
+        record_v(&dir, c, &mut rec, "generated");
     }
 
     // ---- comparator and sort cases
